@@ -49,7 +49,7 @@ probes! {
     // C14 / faults
     fault_write_err, fault_flush_err, fault_sticky, fault_app_err, fault_in_char_echo, fault_in_enter,
     fault_in_handler_output, fault_in_help, fault_in_parse_error, fault_in_recall, fault_in_tab, fault_in_write,
-    fault_in_set_prompt, fault_in_backspace, fault_in_move, recovered_after_fault, enter_after_fault, fault_group_help,
+    fault_in_set_prompt, fault_in_build, fault_in_backspace, fault_in_move, recovered_after_fault, enter_after_fault, fault_group_help,
     // sink modes
     sink_short_write, sink_buffered_run, sink_passthrough_run, sink_short_run,
     // C15
